@@ -45,13 +45,16 @@ int main(int argc, char** argv) {
             free(pq); free(exp); }
         fclose(f); v_count_n("footers_checked", (uint64_t)n);
     } else if (!strcmp(argv[1], "builder")) { uint64_t seed = strtoull(argv[2], 0, 10); int scale = atoi(argv[3]); vrng_seed(&R, seed * 977 + 1); int maxn = scale >= 2 ? 1000 : 300;
-        for (int n = 0; n <= maxn; n += (n < 140 ? 1 : 37)) { carquet_error_t err = CARQUET_ERROR_INIT; carquet_schema_t* s = carquet_schema_create(&err); if (!s) { v_viol("builder:create-failed", "n=%d", n); continue; }
+        for (int variant = 0; variant < 2; variant++) for (int n = 0; n <= maxn; n += (n < 140 ? 1 : 37)) { carquet_error_t err = CARQUET_ERROR_INIT; carquet_schema_t* s = carquet_schema_create(&err); if (!s) { v_viol("builder:create-failed", "n=%d", n); continue; }
             sb_t exp = {0}; sb_add(&exp, "N %d %d", n + 1, n); sb_add(&exp, "E 0 0 -1 -1 0 -1 736368656d61"); char** names = calloc((size_t)n + 1, sizeof(char*)); int* ty = calloc((size_t)n + 1, sizeof(int)); int* rp = calloc((size_t)n + 1, sizeof(int)); int* tl = calloc((size_t)n + 1, sizeof(int)); int ok = 1; char hn[11000];
             for (int i = 0; i < n && ok; i++) { size_t L = vrng_chance(&R, 1, 60) ? 5000 : 1 + vrng_below(&R, 12); names[i] = malloc(L + 16); for (size_t k = 0; k < L; k++) names[i][k] = (char)('a' + vrng_below(&R, 26)); snprintf(names[i] + L, 15, "_%d", i);
                 static const int T[] = {0, 1, 2, 3, 4, 5, 6, 7}; ty[i] = T[vrng_below(&R, 8)]; rp[i] = (int)vrng_below(&R, 3); tl[i] = ty[i] == 7 ? 1 + (int)vrng_below(&R, 64) : 0;
+                /* some elements are (empty) groups added at the root - the only nesting the builder offers - in particular the elements that land on a capacity boundary */
+                int as_group = variant && (vrng_chance(&R, 1, 8) || i == 63 || i == 127 || i == 255 || i == 511); if (as_group) { ty[i] = -1; tl[i] = 0; int32_t gi = carquet_schema_add_group(s, names[i], (carquet_field_repetition_t)rp[i], 0); if (gi != i + 1) { if (gi < 0) { v_count("builder_refused"); ok = 0; } else { v_viol("builder:add_group-index", "n=%d i=%d returned %d", n, i, gi); ok = 0; } } v_count("builder_groups_added"); continue; }
                 if (carquet_schema_add_column(s, names[i], (carquet_physical_type_t)ty[i], NULL, (carquet_field_repetition_t)rp[i], tl[i]) != CARQUET_OK) { v_count("builder_refused"); ok = 0; } }
-            if (ok) { for (int i = 0; i < n; i++) { hexname(hn, sizeof hn, names[i]); sb_add(&exp, "E %d 1 %d %d %d -1 %s", i + 1, ty[i], rp[i], tl[i], hn); }
-                for (int i = 0; i < n; i++) { hexname(hn, sizeof hn, names[i]); int d = rp[i] != 0, r = rp[i] == 2; sb_add(&exp, "L %d %d %d %d %s", i, i + 1, d, r, hn); sb_add(&exp, "A %d %d %d", i, d, r); sb_add(&exp, "F %d %d", i, i); }
+            if (ok) { int nl = 0; for (int i = 0; i < n; i++) if (ty[i] >= 0) nl++; free(exp.p); exp.p = NULL; exp.n = exp.cap = 0; sb_add(&exp, "N %d %d", n + 1, nl); sb_add(&exp, "E 0 0 -1 -1 0 -1 736368656d61");
+                for (int i = 0; i < n; i++) { hexname(hn, sizeof hn, names[i]); if (ty[i] >= 0) sb_add(&exp, "E %d 1 %d %d %d -1 %s", i + 1, ty[i], rp[i], tl[i], hn); else sb_add(&exp, "E %d 0 -1 %d 0 -1 %s", i + 1, rp[i], hn); }
+                for (int i = 0, l = 0; i < n; i++) { if (ty[i] < 0) continue; hexname(hn, sizeof hn, names[i]); int d = rp[i] != 0, r = rp[i] == 2; sb_add(&exp, "L %d %d %d %d %s", l, i + 1, d, r, hn); sb_add(&exp, "A %d %d %d", l, d, r); sb_add(&exp, "F %d %d", l, l); l++; }
                 sb_t got = {0}; describe(&got, s); v_case(v_hash(exp.p, exp.n, 5));
                 if (strcmp(got.p, exp.p)) { char la[300], lb[300], key[96]; first_diff(exp.p, got.p, la, lb, sizeof la); char kind = la[0] ? la[0] : lb[0]; snprintf(key, sizeof key, "builder:%s", kind == 'N' ? "counts" : kind == 'E' ? "element-accessor" : kind == 'L' ? "leaf-levels" : kind == 'A' ? "node-level-accessor" : "find-column"); v_viol(key, "n=%d expected[%.200s] carquet[%.200s]", n, la, lb); }
                 if (n > 64) v_count("builder_past_initial_capacity"); free(got.p); v_count("builder_schemas"); }
